@@ -86,7 +86,10 @@ macro_rules! assert_remaining {
 /// Split off the first `len` bytes of `buf`, failing instead of panicking
 /// when fewer than `len` bytes remain.
 #[inline]
-pub(crate) fn split_to_checked(buf: &mut bytes::Bytes, len: usize) -> Result<bytes::Bytes, IOError> {
+pub(crate) fn split_to_checked(
+    buf: &mut bytes::Bytes,
+    len: usize,
+) -> Result<bytes::Bytes, IOError> {
     assert_remaining!(len <= buf.len(), "`len` greater than remaining");
     Ok(buf.split_to(len))
 }
